@@ -927,9 +927,11 @@ def callHandler (T : PTables) : Nat → Handler → Buf → MacroDef → List (L
       let label ← getTextExpanded T fuel a1
       let st ← get
       let entry := (st.glossary.find? (·.1 == label)).bind (fun e => e.2.find? (·.1 == key))
+      -- `get_tokens` returns the stored value, which is `None` for a key given without `=`:
+      -- treated like a missing label
       match entry with
       | none => latexError T.toTables glsMissing pos
-      | some (_, none) => crash "glossaries.py:h_gls:None"
+      | some (_, none) => latexError T.toTables glsMissing pos
       | some (_, some toks) =>
         match (if cf then capFirst T toks else some toks) with
         | none => crash "glossaries.py:cap_first:txt[0]"
